@@ -53,7 +53,7 @@ def exhaustive_seqs(depth, nkeys=4):
             ops = ["new %s%s" % (ty, NOTIF[ci % 8])]
             for o in seq:
                 ops += [o, "shape"]
-            ops += ["each 0", "each 2", "shape"] + (["clear", "count"] if (ci // 8) % 2 == 0 else ["free"])
+            ops += ["getk 1", "getk 2", "each 0", "each 2", "shape"] + (["clear", "count"] if (ci // 8) % 2 == 0 else ["free"])
             yield ops
 
 
@@ -123,7 +123,7 @@ def gen_random(rng, chk, nops):
                 if ops[-1] == "remn":
                     present.discard(nk)
             else:
-                ops.append("get %d" % k)
+                ops.append(rng.choice(["get %d", "getk %d"]) % k)
         elif r < 0.97:
             j = rng.choice([0, 1, 2, max(1, len(present) // 2), len(present), len(present) + 1])
             ops += ["shape", "each %d" % j, "shape"]
@@ -169,7 +169,7 @@ def extra_cases():
                 cases.append(base + ["insk", "insv 2", "free"])
                 cases.append(base + ["api", "each 1", "free", "count"])
                 cases.append(base + ["clear", "free"])
-                cases.append(base + ["rem 2", "ins 2", "ins 2", "free"])
+                cases.append(base + ["rem 2", "getk 2", "ins 2", "getk 2", "ins 2", "getk 2", "insf 2", "getk 2", "getk 1", "free"])
             # the NULL pointer as probe: no NULL key stored / stored as smallest / stored inside the range (root, inner, leaf)
             cases.append(["new %s%s" % (ty, flags), "getn", "remn", "ins 1", "getn", "remn", "ins 0", "getn", "remn", "count", "free"])
             for nk in (0, 4, 2, 1, 7):
@@ -217,7 +217,7 @@ def null_cases():
                 base = [4, 2, 6, 1, 3, 5, 7]
                 ops = ["new %s%s" % (ty, flags)] + [("insv %d" % k) if k == target else ("ins %d" % k) for k in base]
                 cases.append(ops + ["shape", "get %d" % target, "rem %d" % target, "shape", "each 0", "clear"])
-                cases.append(ops + ["ins %d" % target, "insv %d" % target, "insv %d" % target, "rem %d" % target, "each 0", "clear"])
+                cases.append(ops + ["getk %d" % target, "ins %d" % target, "getk %d" % target, "insv %d" % target, "insv %d" % target, "getk %d" % target, "rem %d" % target, "getk %d" % target, "each 0", "clear"])
             for order in ([3, 1, 5, 2, 4], [1, 3, 5], [5, 3, 1], [2, 1, 3]):
                 # the NULL key orders as 0: smallest key; as root (inserted first), as leaf, replaced, removed with two children below
                 for w in ("insk", "inskv"):
@@ -250,7 +250,8 @@ def witness_cases():
                 # tail: growth below, above and inside the key range and a few removals, so that a balance factor / colour left
                 # wrong by the case under test has consequences the independent oracles of `shape` can see
                 mid = sorted(set(keys))[len(set(keys)) // 2]
-                tail = ["ins %d" % k for k in (99, 98, 97, 400, 401, 402)] + ["rem %d" % k for k in keys[:3]] + ["ins %d" % mid, "ins 96", "ins 403", "rem 98", "rem 401"]
+                hi = max(400, max(keys) + 1)
+                tail = ["ins %d" % k for k in (99, 98, 97, hi, hi + 1, hi + 2)] + ["rem %d" % k for k in keys[:3]] + ["ins %d" % mid, "ins 96", "ins %d" % (hi + 3), "rem 98", "rem %d" % (hi + 1)]
                 ops = [cur[0]] + [x for o in [sh(o) for o in cur[1:]] + tail for x in (o, "shape")]
                 cases.append(ops + ["each 0", "each %d" % (1 + i % 5), "shape", "count"] + (["clear", "shape"] if i % 2 == 0 else ["free"]))
             cur = []
